@@ -26,6 +26,10 @@ constexpr bool TRIVIAL = true;
 using Elem = tracked<int>; static Elem mk(long id) { return Elem(int(id)); } static long id_of(Elem const& e) { return e.get(); }
 using Other = int; static Other mko(long id) { return int(id); }
 constexpr bool TRIVIAL = false;
+#elif H_T == 4
+using Elem = tracked_ta<int>; static Elem mk(long id) { return Elem(int(id)); } static long id_of(Elem const& e) { return e.get(); }
+using Other = int; static Other mko(long id) { return int(id); }
+constexpr bool TRIVIAL = false;
 #elif H_T == 3
 // trivially destructible and trivially copyable, but NOT trivially default constructible: a value-initialised element has id 0, raw (poisoned) storage does not
 struct Cell { int v = 1; int w;  /* no initialiser: 0 after value-initialisation, whatever the (poisoned) storage held after default-initialisation */ Cell() = default; Cell(int x) : v{x}, w{0} {}  /* NOLINT */ friend bool operator==(Cell const& a, Cell const& b) { return a.v == b.v; } friend bool operator!=(Cell const& a, Cell const& b) { return a.v != b.v; } };
@@ -126,7 +130,7 @@ static void check_all(std::vector<Slot>& pool, std::string const& opk, bool c06o
 		if(a0 < b1 && b0 < a1) V("C04:" + opk + ":storage-shared", "after " + cur_op + ": two arrays share storage"); }
 	// registry / ledger (C08): live elements == sum of num_elements; outstanding blocks == non-empty arrays; block sizes match
 	L sum = 0, nonempty = 0; for(auto& s : pool) if(s.a) { sum += s.a->num_elements(); if(s.a->num_elements() > 0) ++nonempty; }
-#if H_T == 1
+#if H_T == 1 || H_T == 4
 	if(L(registry().live.size()) != sum) V("C08:" + opk + ":live-elements-vs-extents", "after " + cur_op + ": " + std::to_string(registry().live.size()) + " live element objects but the arrays hold " + std::to_string(sum) + " elements");
 #endif
 	if(L(ledger().blocks.size()) != nonempty) V("C08:" + opk + ":outstanding-blocks", "after " + cur_op + ": " + std::to_string(ledger().blocks.size()) + " outstanding blocks for " + std::to_string(nonempty) + " non-empty arrays");
@@ -212,7 +216,10 @@ template<int DD> void history_t(Case& c) {
 				if(!fill && !same && nm.n() > 0 && tuple_to_vec(A.a->sizes()) == e) { Elem const* p = A.a->data_elements(); for(L k = 0; k < nm.n(); ++k) if((rv || isnew[std::size_t(k)]) && !value_initialised(p[k])) { V("C06:" + opk + ":new-element-not-value-initialised", "a new element after reextent without a fill value is default-initialised (its member without initialiser holds the bytes of the fresh block), not value-initialised"); break; } count("value-initialisation-checks"); }
 #endif
 				A.m = nm; A.m.base = nb; A.m.base_known = (nm.n() > 0); break; } break;
-			case 15: if constexpr(DD >= 1) { if(!A.a) break; c06 = true; bool il = g.chance(1, 2); opk = il ? "assign={}" : "clear"; d << opk << "(" << a << ")"; cur_op = d.str(); op(opk); softcfg().opk = opk; if(il) *A.a = {}; else A.a->clear(); A.m = empty_model(); if(D == 0) { A.m.unspec = true; A.m.ids = {0}; } break; } break;
+			case 15: if constexpr(DD >= 1) { if(!A.a) break; c06 = true; bool il = g.chance(1, 2); opk = il ? "assign={}" : "clear"; d << opk << "(" << a << ")"; cur_op = d.str(); op(opk); softcfg().opk = opk; if(il) *A.a = {}; else A.a->clear();
+				{ auto const sz = tuple_to_vec(A.a->sizes()); bool allzero = true; for(L x : sz) allzero &= (x == 0); count("clear:canonical-empty-checks");  // "an empty valid array": the canonical one, whatever (possibly zero-element yet shaped, e.g. 0x5) state it had
+					if(!allzero || !(A.a->extensions() == typename Arr::extensions_type{})) V("C06:" + opk + ":not-canonical-empty", "after " + opk + " the array reports sizes " + join(sz, "x") + ": not the extensions of a default-constructed array"); else if(!(*A.a == Arr{})) V("C06:" + opk + ":not-equal-to-default-constructed", "a cleared array does not compare equal to a default-constructed one"); }
+				A.m = empty_model(); if(D == 0) { A.m.unspec = true; A.m.ids = {0}; } break; } break;
 			case 16: { if(!A.a || D == 0 || A.m.n() == 0) break; c06 = true; std::vector<L> ne = A.m.ext; std::size_t i = std::size_t(g.below(D)), j = std::size_t(g.below(D)); std::swap(ne[i], ne[j]); if(D >= 2 && g.chance(1, 2)) { L nn = A.m.n(); ne.assign(std::size_t(D), 1); ne[std::size_t(g.below(D))] = nn; }
 				opk = "reshape"; d << opk << "(" << a << "," << join(A.m.ext, "x") << "->" << join(ne, "x") << ")"; cur_op = d.str(); op(opk); softcfg().opk = opk; Elem const* before = A.a->data_elements(); A.a->reshape(make_extensions<D>(ne)); if(A.a->data_elements() != before) V("C06:reshape:reallocated", "reshape changed data_elements()"); A.m.ext = ne; A.m.base.assign(std::size_t(D), 0); A.m.base_known = true; break; }
 			case 17: { if(!A.a || D != 1) break; c06 = true; Model nm = fresh({g.in(1, MAXEXT + 1)});  // (an empty iterator pair makes the library evaluate *first on an end iterator — formed, never read; excluded, see DESIGN.md)
@@ -267,7 +274,7 @@ template<int DD> void history_t(Case& c) {
 	}
 	// after the last array died nothing is outstanding
 	poll();
-#if H_T == 1
+#if H_T == 1 || H_T == 4
 	if(!registry().live.empty()) V("C08:end:leaked-elements", std::to_string(registry().live.size()) + " element objects still alive after the last array died");
 #endif
 	if(!ledger().blocks.empty()) V("C08:end:leaked-blocks", std::to_string(ledger().blocks.size()) + " blocks outstanding after the last array died");
